@@ -54,6 +54,8 @@ type Case struct {
 	// spelling) are each attached to by NConn connections at the same moment;
 	// every connection stats a file of its own and is dropped
 	Storm int `json:"storm,omitempty"`
+	// Big: the big-writes workload of targets "ufsbig" / "scriptbig" (big_test.go)
+	Big *Big `json:"big,omitempty"`
 }
 
 const deadline = 30 * time.Second
@@ -125,6 +127,17 @@ func run(c *Case) error {
 		err = runScript(c)
 	case "scriptraw":
 		err = runScriptRaw(c)
+	case "ufsbig", "scriptbig":
+		if c.Big == nil || c.Big.Blk > bigMaxBlk || c.Big.Blk < 1 || c.Big.Writers < 1 {
+			return fmt.Errorf("harness: big-writes case without a valid description")
+		}
+		if c.Target == "ufsbig" {
+			err = runUfsBig(c)
+		} else {
+			err = runScriptBig(c)
+		}
+		hx.Extra("max_overlap", atomic.LoadInt64(&ov.max))
+		return err // (its own non-trivial rule: bigRecord)
 	default:
 		err = fmt.Errorf("harness: target %q", c.Target)
 	}
@@ -764,11 +777,15 @@ func execute(test string, c *Case) error {
 	hx.Journal(test, c)
 	hx.Eval()
 	hx.Label(fmt.Sprintf("target=%s nconn=%d", c.Target, c.NConn))
-	hx.Label(fmt.Sprintf("g=%s debug=%v flush=%v procs=%d", bucket(c.G), c.Debug, c.Flush, c.Procs))
+	if c.Big != nil {
+		hx.Label(fmt.Sprintf("bigwrites writers=%s blk=%s mode=%q small=%v debug=%v procs=%d", bucketW(c.Big.Writers), bucketBlk(c.Big.Blk), c.Big.Mode, c.Big.Small > 0, c.Debug, c.Procs))
+	} else {
+		hx.Label(fmt.Sprintf("g=%s debug=%v flush=%v procs=%d", bucket(c.G), c.Debug, c.Flush, c.Procs))
+	}
 	if c.Target == "ufs" {
 		hx.Label(fmt.Sprintf("ufs root=%q together=%v fresh-server-storms=%v", c.RootForm, c.Together && c.NConn > 1, c.Storm > 0 && c.NConn > 1))
 	}
-	if c.Target != "scriptraw" {
+	if c.Target != "scriptraw" && c.Big == nil {
 		during := false
 		for _, ops := range c.Ops {
 			for _, op := range ops {
@@ -799,6 +816,26 @@ func bucket(n int) string {
 		return "3-6"
 	}
 	return "7-16"
+}
+
+func bucketW(n int) string {
+	switch {
+	case n <= 24:
+		return "16-24"
+	case n <= 40:
+		return "25-40"
+	}
+	return "41-64"
+}
+
+func bucketBlk(n int) string {
+	switch {
+	case n == bigMaxBlk:
+		return "msize-IOHDRSZ"
+	case n >= bigMaxBlk-600:
+		return "near msize"
+	}
+	return "msize/2.."
 }
 
 var opKinds = []string{"create", "write", "read", "stat", "statroot", "statowned", "statowned", "wstat", "readdir", "remove", "walkmissing",
